@@ -18,7 +18,7 @@ CONSTANTS
   PskIds = {"k1", "k2"}
   PskValues = {"none", "a"}
   JitterChoices = {99999}
-  Deviations = {"F12", "F14"}
+  Deviations = {"F12", "F14", "F24"}
   MaxApps = 0
   MaxSucc = 6
   CapX = {}
